@@ -2,7 +2,7 @@
    (2) the shipped insert/subdivide refutes `spec` as soon as a leaf that has
    absorbed an exact duplicate is split (defect F24), the repaired one does not. *)
 From Coq Require Import List Arith Bool ZArith QArith Permutation Lia Lqa.
-From TK Require Import QuadTree_Model QuadTree_Spec QuadTree_Proof_Base QuadTree_Proof_Insert
+From TK Require Import QuadTree_Model QuadTree_Spec QuadTree_SpecExec QuadTree_Proof_Base QuadTree_Proof_Insert
                        QuadTree_Proof_Main.
 Import ListNotations.
 Local Open Scope Q_scope.
@@ -171,13 +171,7 @@ Qed.
 
 (* ---------- F24: the shipped code loses the absorbed mass on subdivide ---------- *)
 
-Fixpoint cum_consistent (t : qt) : bool :=
-  match t with
-  | Leaf _ _ _ _ => true
-  | Node _ cum _ nw ne sw se =>
-    (cum =? qcum nw + qcum ne + qcum sw + qcum se)%nat
-    && cum_consistent nw && cum_consistent ne && cum_consistent sw && cum_consistent se
-  end.
+(* cum_consistent is defined in QuadTree_SpecExec (it is also run on the dump of the real tree) *)
 
 Lemma Routed_cum : forall data l t, Routed data l t -> qcum t = length l /\ cum_consistent t = true.
 Proof.
